@@ -158,3 +158,18 @@ Definition sys0 (r : rstate) : sys := mkS r [] [].
 Definition events_of (g : N) (l : list event) : list event :=
   filter (fun e => N.eqb (ev_g e) g) l.
 Definition wire_events (s : sys) : list event := rev (map snd (wire s)).
+
+(* ---- one sender, any staleness of lastWrite ------------------------------------------ *)
+(* A step is (wait, chars, elapsed): the sender calls rate `wait` after its previous Send
+   returned, the call forgives `elapsed` (whatever max(lastWrite, lastRate) was), and Send
+   returns after the delay.  `t` is the clock when the previous Send returned.  Output per
+   event: (time of the rate call, delay). *)
+Fixpoint run_one (w t : Z) (steps : list (Z * Z * Z)) : Z * Z * list (Z * Z) :=
+  match steps with
+  | [] => (w, t, [])
+  | (wait, chars, el) :: rest =>
+      let now := t + wait in
+      let '(w1, d) := rate_core w el chars in
+      let '(w2, t2, out) := run_one w1 (now + d) rest in
+      (w2, t2, (now, d) :: out)
+  end.
